@@ -14,7 +14,7 @@ for f in theirs.get('findings', []):
 json.dump(ours, open('KNOWN_FINDINGS.json','w'), indent=1, ensure_ascii=False)
 PY
 for f in MANIFEST.json DESIGN.md; do git checkout --ours $f 2>/dev/null; done
-for f in $(git diff --name-only --diff-filter=U | grep '^evidence/\|^lean/UralModel/Gen/\|^lean/Main.lean\|^lean/UralModel.lean\|^DESIGN.md'); do git checkout --theirs "$f" 2>/dev/null; done
+for f in $(git diff --name-only --diff-filter=U | grep '^evidence/\|^lean/UralModel/Gen/\|^lean/Main.lean\|^lean/UralModel.lean'); do git checkout --theirs "$f" 2>/dev/null; done
 left=$(grep -rlE '^(<<<<<<<|>>>>>>>) ' --exclude-dir=.git --exclude-dir=.lake --exclude-dir=replays --exclude-dir=build . | grep -v '^./KNOWN_FINDINGS.json' | head)
 if [ -n "$left" ]; then echo "UNRESOLVED CONFLICTS (resolve by hand, then tools/commit.sh):"; echo "$left"; exit 1; fi
 python3 tools/mkmain.py && python3 tools/mkmanifest.py
